@@ -168,3 +168,14 @@ Proof. exact trun_is_truncate_loop. Qed.
 
 Print Assumptions C16_source_truncate_loop.
 Print Assumptions C16_source_truncate_loop_is_the_model.
+
+(* a panicking initialiser closure inside alloc_slice_fill_with / try_alloc_slice_fill_with (the loop
+   translated from /repo's source, FillWalkOk.v): the closure's (k+1)-th call panics -> indices
+   0..k-1 were asked and stored, index k was asked and nothing stored for it, nothing else happened.
+   The slice was never handed out, so no destructor can run on the k values (they leak in the arena) *)
+From BV Require Import FillWalkOk.
+Theorem C16_fill_closure_panic : forall k j dst i sc,
+  (k < j)%nat -> forallb returns (firstn k sc) = true -> nth k sc (Some true) = None ->
+  frun dst j i sc = (List.app (filled dst k i) [e_ask (i + N.of_nat k)], i + N.of_nat k, true).
+Proof. exact frun_panics_at. Qed.
+Print Assumptions C16_fill_closure_panic.
